@@ -436,6 +436,18 @@ impl DnsCache {
             });
         }
 
+        // SRV, TXT and NSEC records that no PTR record points to (any more) are
+        // not visited above. Evict them here as well, and drop the names that
+        // are left without records, otherwise they stay in the cache forever.
+        let live = |records: &mut Vec<DnsRecordIntf>| {
+            records.retain(|r| !r.record.get_record().is_expired(now));
+            !records.is_empty()
+        };
+        self.srv.retain(|_, records| live(records));
+        self.txt.retain(|_, records| live(records));
+        self.nsec.retain(|_, records| live(records));
+        self.ptr.retain(|_, records| !records.is_empty());
+
         expired_instances
     }
 
